@@ -30,7 +30,15 @@ Streams
           parent references disagree afterwards, the property is judged on the objects (graphcheck).
   names   sibling names that differ by case / white space / Unicode normalisation / the spelling of a
           number only; more than ten Properties or siblings
-  types   hierarchical types of every shape; with non-ASCII letters ORACLE ONLY
+  types   hierarchical types of every shape, also with letters outside ASCII
+  case    (added after seeded round 4) types whose letters have more than one "other case": sharp s /
+          SS / capital sharp s, final and non-final sigma, dotted and dotless i, long s, ligatures,
+          Cherokee, Kelvin / Angstrom sign, title-case digraphs, Deseret (outside the BMP), NFC / NFD
+          twins - stored in the tree AND asked for in every spelling (as stored, lower, upper, casefold,
+          swapcase, title), alone and as components of hierarchical types; built, edited by a history
+          (type edits between queries), read back from XML / JSON / YAML strings and files. The model
+          takes str.lower as a parameter (theorems for every such function); the driver gets the real
+          str.lower of the strings of the case as a table.
 The requests of find / find_related are derived from the tree (cross product of the names, near misses
 of them, the types and every component of them) in addition to fixed grids; the final queries rotate
 through keyword / defaulted / positional calls.
@@ -148,6 +156,74 @@ RICH_TYPES = ["stim", "stim/white", "stim/white/x", "white", "white/stim", "x/st
               "n.s.", "", "/", "t", "T", "stim/t"]
 RICH_TYPES_U = [u"\xe9/a", u"\xc9/b", u"\u0130/x", u"\xf1", u"stim/\xe9", u"\xe9"]
 
+# Types whose letters have more than one "other case" (added after seeded round 4). One group = spellings
+# that SOME case-insensitive comparison identifies (str.lower, str.upper, str.casefold disagree on which).
+CASE_GROUPS = [
+    [u"Ma\xdf", u"ma\xdf", "MASS", "mass", "Mass", u"MA\u1e9e", u"MA\xdf"],                  # sharp s
+    [u"Gr\xf6\xdfe", u"GR\xd6SSE", u"gr\xf6sse", u"gr\xf6\xdfe", u"GR\xd6\u1e9eE", "grosse"],
+    [u"\u03bf\u03b4\u03cc\u03c2", u"\u039f\u0394\u038c\u03a3", u"\u03bf\u03b4\u03cc\u03c3",  # final / non-final sigma
+     u"\u039f\u03b4\u03cc\u03c2", u"\u03bf\u03b4\u03bf\u03c2"],
+    [u"\u0130stanbul", "istanbul", u"i\u0307stanbul", "ISTANBUL", u"\u0131stanbul", "Istanbul"],   # dotted / dotless i
+    [u"\u017ftim", "stim", "STIM", "Stim", u"\u017fTIM"],                                    # long s
+    [u"\ufb01le", "file", "FILE", "File", u"\ufb01LE"],                                      # ligature fi
+    [u"\u13a0\u13a1", u"\uab70\uab71", u"\u13a0\uab71"],                                     # Cherokee
+    [u"\u212a", "k", "K", u"\u212b", u"\xe5", u"\xc5", u"a\u030a"],                            # Kelvin, Angstrom
+    [u"\u01c5em", u"\u01c4EM", u"\u01c6em", "dzem", u"d\u017eem", u"D\u017eem"],             # title-case digraph
+    [u"\u0149", u"\u02bcn", u"\u02bcN", u"\u0390", u"\u03b9\u0308\u0301"],                  # one letter, several when folded
+    [u"\U00010400\U00010401", u"\U00010428\U00010429", u"\U00010400\U00010429"],             # Deseret (outside the BMP)
+    [u"\xe9", u"e\u0301", u"\xc9", u"E\u0301", "e", "E"],                                  # NFC / NFD
+    [u"\xf1", u"\xd1", u"n\u0303", u"\u0436", u"\u0416", u"\u044f\u0416"],                  # plain pairs (all readings agree)
+]
+# hierarchical types over such components
+CASE_TYPES_H = [u"Ma\xdf/L\xe4nge", u"MASS/L\xc4NGE", u"ma\xdf/l\xe4nge", u"mass/l\xe4nge", u"Ma\xdf/L\xe4nge/x",
+                u"L\xe4nge/Ma\xdf", u"stim/Ma\xdf", u"\u039f\u0394\u038c\u03a3/\u0391", u"\u03bf\u03b4\u03cc\u03c2/\u03b1",
+                u"\u03bf\u03b4\u03cc\u03c3/\u03b1", u"\u0130/x", u"i\u0307/x", "i/x", "I/X", u"\u017ftim/white", "stim/white",
+                "STIM/WHITE", u"\ufb01le/\ufb01le", "file/FILE", u"\u212a/\u212a", "k/K",
+                "a/b/c/d/e/f/g/h/i/j/k/l", u"Ma\xdf/", u"/Ma\xdf", u"Ma\xdf//x"]
+# lone surrogates cannot travel to the Lean driver as JSON: cases holding them are oracle only
+SURROGATE_TYPES = [u"\ud800", u"\ud800x", u"X\udc00", u"x\ud800/\xdf"]
+
+
+def case_variants(s):
+    """The same text in other cases. ASCII: swapcase (all case mappings agree there). Other letters:
+    every spelling a caller may use for "the same type" - the mappings disagree (sharp s, final sigma,
+    dotted I, ligatures ...), so all of them are asked for."""
+    if is_ascii(s):
+        return [s.swapcase()]
+    out = []
+    for v in (s.swapcase(), s.lower(), s.upper(), s.casefold(), s.title()):
+        if v != s and v not in out:
+            out.append(v)
+    return out or [s]
+
+
+def lower_table(strings):
+    """[[s, s.lower()]] for the strings with letters outside ASCII, and for the results: the model's
+    str.lower is a parameter, instantiated per case with the real one (this process' str.lower, not
+    the repo's code). ASCII strings are lower-cased by the driver itself (Py.lower)."""
+    table, seen = [], set()
+    todo = [x for x in strings if isinstance(x, str)]
+    while todo:
+        x = todo.pop()
+        if x in seen or is_ascii(x):
+            continue
+        seen.add(x)
+        table.append([x, x.lower()])
+        todo.append(x.lower())
+    return sorted(table)
+
+
+def has_surrogates(x):
+    return any(0xD800 <= ord(ch) <= 0xDFFF for ch in x)
+
+
+def tree_types(secs):
+    out = []
+    for sec in secs:
+        out.append(sec["t"])
+        out += tree_types(sec["s"])
+    return out
+
 
 # ----------------------------------------------------------------------------- histories
 HIST_NAMES = NAMES + ["abcd", "c", "...", "a b", u"\xe9", u"\xdf", u"\u0130", u"a\u2028b", u"x\x85", "1", "10", "2",
@@ -207,8 +283,9 @@ def hist_spec(rng, maxu, docs=False):
     return spec
 
 
-def hist_op(rng, kind, counter, uid):
+def hist_op(rng, kind, counter, uid, types=None):
     """One operation of a history; the objects are named by handles, resolved when the history runs."""
+    types = types or TYPES[:8]
     maxu = counter[0]
     x = hist_spec(rng, maxu)
     name = rng.choice(HIST_NAMES) if rng.random() < 0.8 else rng.choice(NAMES) + str(rng.randrange(0, 100))
@@ -227,7 +304,7 @@ def hist_op(rng, kind, counter, uid):
     if kind == "new":
         counter[0] += 1
         op = {"op": kind, "to": hist_spec(rng, maxu, True), "name": name if rng.random() < 0.85 else None,
-              "type": rng.choice(TYPES[:8]), "how": rng.choice(["ctor", "create", "append", "insert", "extend"]),
+              "type": rng.choice(types), "how": rng.choice(["ctor", "create", "append", "insert", "extend"]),
               "i": i, "u": counter[0]}
         if rng.random() < 0.3:
             op["idof"] = hist_spec(rng, maxu)
@@ -264,7 +341,7 @@ def hist_op(rng, kind, counter, uid):
     if kind == "merge":
         return {"op": kind, "x": x, "src": hist_spec(rng, maxu)}
     if kind == "type":
-        return {"op": kind, "x": x, "t": rng.choice(TYPES[:8])}
+        return {"op": kind, "x": x, "t": rng.choice(types)}
     if kind == "values":
         uid[0] += 1
         return {"op": kind, "x": x, "k": rng.randrange(0, 3), "v": rng.choice([[uid[0]], [uid[0], -9, -8], []])}
@@ -285,10 +362,11 @@ def hist_op(rng, kind, counter, uid):
     raise ValueError(kind)
 
 
-def hist_case(rng, uid, forest, kinds, warm, plan, via=None, links=False, ids=False, big=False):
+def hist_case(rng, uid, forest, kinds, warm, plan, via=None, links=False, ids=False, big=False, typepool=None):
     """A history: initial tree (+ a second Document), then for every kind in `kinds` an optional
-    round of queries (`warm`: None = random subset, else the list) followed by the operation."""
-    types = TYPES[:8] if via and via[0] != "CLONE" else TYPES
+    round of queries (`warm`: None = random subset, else the list) followed by the operation.
+    typepool: the types of the Sections and of the type edits (default: the ASCII TYPES)."""
+    types = typepool or (TYPES[:8] if via and via[0] != "CLONE" else TYPES)
     pnames = PROP_NAMES + (["...", "a b", u"\xe9"] if big else [])
     doc = {"s": decorate(forest, rng, uid, types, pnames)}
     doc["o"] = decorate(rng.choice(forests(rng.randrange(1 if "adopt" in kinds else 0, 4))), rng, uid,
@@ -315,7 +393,7 @@ def hist_case(rng, uid, forest, kinds, warm, plan, via=None, links=False, ids=Fa
         ks = warm if warm is not None else [k for k in WARM_KINDS if rng.random() < 0.4]
         if ks:
             ops.append({"op": "warm", "k": list(ks) + (["mid"] if rng.random() < 0.35 else [])})
-        op = hist_op(rng, kind, counter, uid)
+        op = hist_op(rng, kind, counter, uid, typepool)
         ops += op if isinstance(op, list) else [op]
     if links and "finalize" not in kinds and not via:
         ops.append({"op": "finalize"})
@@ -489,9 +567,10 @@ def is_ascii(s):
 
 
 def swap_case(s):
-    """The same text in another case. Only for ASCII: how str.lower() treats other letters (U+0130,
-    sharp s) is not something the property fixes, such strings are only asked for as they are stored."""
-    return s.swapcase() if is_ascii(s) else s
+    """The same text in another case (first spelling of case_variants). Until seeded round 4 letters
+    outside ASCII were only asked for as stored; now every other-case spelling is asked for, the oracle
+    accepts each reading of "case-insensitive" for them (see C14.oracle)."""
+    return case_variants(s)[0]
 
 
 def derived_requests(kids, rng=None, max_keys=6, max_types=8):
@@ -515,8 +594,8 @@ def derived_requests(kids, rng=None, max_keys=6, max_types=8):
         parts = t.split("/")
         cand = []
         if len(parts) > 1:
-            cand += parts + ["/".join(parts[:k]) for k in range(2, len(parts))] + [swap_case(parts[0])]
-        cand.append(swap_case(t))
+            cand += parts + ["/".join(parts[:k]) for k in range(2, len(parts))] + case_variants(parts[0])
+        cand += case_variants(t)
         for v in cand:
             if v not in types and v not in comps:
                 comps.append(v)
@@ -629,11 +708,13 @@ def _plan_queries(case):
         prng = random.Random("derived:%s" % plan)
     # "lite": a smaller derived grid, for the 17 000 trees of size 5 the thorough tier enumerates
     lite = bool(case.get("lite"))
+    # "wide": more types per start (stream case: every spelling of every type is a request)
+    wide = bool(case.get("wide"))
     asked = set((tuple(q["cur"]), q["key"], q["type"]) for q in qs if q["q"] == "find")
     for st in dict.fromkeys(tuple(s) for s in starts):
         kids = (byp[st]["s"] if st else doc["s"])
         if kids:
-            keys, typs = derived_requests(kids, prng, *((4, 5) if lite else (6, 8)))
+            keys, typs = derived_requests(kids, prng, *((4, 5) if lite else (3, 24) if wide else (6, 8)))
             for key in keys:
                 for typ in typs:
                     if (st, key, typ) in asked:
@@ -646,13 +727,16 @@ def _plan_queries(case):
             # another case), its name with the type of another Section, with a super-type, type alone
             if prng is None:
                 picks = [secs[0][1], secs[-1][1]]
+                if wide and st and st not in (secs[0][0], secs[-1][0]):
+                    picks = [byp[st], secs[-1][1]]         # the start itself: found as its own sibling
             else:
                 picks = [prng.choice(secs)[1], prng.choice(secs)[1]]
             reqs = []
             for n, x in enumerate(picks):
                 other = picks[1 - n]
-                for req in ((x["n"], x["t"]), (x["n"], swap_case(x["t"])), (x["n"], x["t"].split("/")[0]),
-                            (x["n"], other["t"]), (None, x["t"]), (swap_case(x["n"]), x["t"])):
+                for req in [(x["n"], x["t"]), (x["n"], swap_case(x["t"])), (x["n"], x["t"].split("/")[0]),
+                            (x["n"], other["t"]), (None, x["t"]), (swap_case(x["n"]), x["t"])] + \
+                        [(None, v) for v in case_variants(x["t"])[:(4 if wide else 1)]]:
                     if req not in reqs:
                         reqs.append(req)
             for key, typ in (reqs[:2] if lite else reqs):
@@ -1243,6 +1327,15 @@ class HistImpl(Impl):
                             if start is not doc:
                                 start.find_related(key=key, type=typ)
                                 start.find_related(key=key, type=typ, findAll=True)
+                        # ... and for the types the tree holds, as stored and in other cases (added after
+                        # seeded round 4: the same type is asked for before and after an edit)
+                        for _p, sec in secs[:4]:
+                            if isinstance(sec.type, str):
+                                for typ in [sec.type] + case_variants(sec.type)[:2]:
+                                    start.find(type=typ)
+                                    start.find(type=typ, findAll=True, include_subtype=True)
+                                    if start is not doc:
+                                        start.find_related(type=typ, findAll=True)
                 elif kind == "validate":
                     if len(secs) <= 60:
                         doc.validate()
@@ -1463,7 +1556,10 @@ def eff_case(case, obs):
 def derived_case(case, final):
     nsecs = len(sec_positions(final)[0])
     plan = case["plan"] if (case["plan"] != "all" or nsecs <= 6) else 1 + nsecs
-    return {"stream": case["stream"], "h": path_safe(final["s"]), "plan": plan, "doc": final, "rawvals": True}
+    dc = {"stream": case["stream"], "h": path_safe(final["s"]), "plan": plan, "doc": final, "rawvals": True}
+    if case.get("wide"):
+        dc["wide"] = True
+    return dc
 
 
 def vals_at(doc, ans):
@@ -1491,7 +1587,16 @@ def norm_answer(a):
 
 
 # ----------------------------------------------------------------------------- oracle helpers
-def satisfies(sec_json, key, typ, sub=False):
+# What "comparisons are case-insensitive" (doc string of _matches) can mean for a letter outside ASCII.
+# For ASCII text - everything the check generated before seeded round 4, and the non-ASCII types of
+# round 3, which were only asked for as stored - the three agree, so nothing the oracle demanded before
+# has changed. Where they disagree (sharp s vs SS, final sigma, dotted I, ligatures) the property text
+# does not pick one: the WEAKER reading is taken, the answers of a case must be right under ONE of them
+# (the same one for every find query of the case, and one for every find_related query).
+READINGS = (("lower", str.lower), ("casefold", str.casefold), ("upper", str.upper))
+
+
+def satisfies(sec_json, key, typ, sub=False, fold=str.lower):
     """Does a Section satisfy the requested name / type (the property's reading)?"""
     if sec_json is None:           # the Document has neither name nor type
         return key is None and typ is None
@@ -1499,8 +1604,8 @@ def satisfies(sec_json, key, typ, sub=False):
         return False
     if typ is None:
         return True
-    have = sec_json["t"].lower()
-    want = typ.lower()
+    have = fold(sec_json["t"])
+    want = fold(typ)
     return have == want or (sub and want in have.split("/")[:-1])
 
 
@@ -1515,7 +1620,9 @@ class C14(fw.Check):
         "itersections_mem", "itersections_mem_document",
         "iterproperties_mem", "iterproperties_once_bfs", "itervalues_spec",
         "find_sound", "find_complete", "find_all_exact",
-        "find_related_mem", "find_related_sound", "find_related_complete"]]
+        "find_related_mem", "find_related_sound", "find_related_complete",
+        "find_caseless", "find_type_as_stored", "find_related_caseless", "find_related_type_as_stored",
+        "mixed_folding_counterexample"]]
     trusted_base = [
         "Lean 4.33.0 kernel; axioms propext, Classical.choice, Quot.sound only (audited per theorem)",
         "hand-written model lean/OdmlModel/Model/Path.lean, Model/PathTree.lean, Py/Posix.lean, "
@@ -1525,7 +1632,9 @@ class C14(fw.Check):
     assumptions = [
         "the tree is rooted in a Document and well formed (C03/C04): the model is a pure tree",
         "sibling names pairwise distinct, non-empty, free of '/' and ':', not '.' or '..' (the property's quantifier)",
-        "str.lower() is modelled for ASCII only; generated types are ASCII",
+        "str.lower() is a parameter of the model (the find / find_related theorems hold for every function; "
+        "find_caseless needs lower('') = '', the siblings clause of find_related_caseless idempotence); the "
+        "driver uses ASCII lower-casing plus the table of real str.lower results sent with each case",
         "filter functions are pure (the model applies them after the walk)",
     ]
     rule = ("small: every ordered tree with <= N Sections (N=3 quick exhaustively + a sample of N=4,5; "
@@ -1544,7 +1653,10 @@ class C14(fw.Check):
             "twins (in hist): equal Sections at several places, objects moved between them by parent=, append, "
             "insert, extend, sections[i]=; a final state in which child lists and parent references disagree "
             "is judged on the objects (no traversal yields an object twice). names: confusable sibling names, "
-            ">10 Properties / siblings; types: hierarchical types of every shape (non-ASCII: oracle only); RDF "
+            ">10 Properties / siblings; types: hierarchical types of every shape; case: types whose letters have "
+            "several other-case forms (sharp s, sigma, dotted I, long s, ligatures, Cherokee, Kelvin sign, "
+            "digraphs, Deseret, NFC/NFD) stored and requested in every spelling, built / edited by a history / "
+            "read from XML, JSON, YAML (lone surrogates: oracle only); RDF "
             "round trips; find / find_related requests derived from the tree (names x types x findAll x "
             "include_subtype); calls by keyword, with defaults left out, by position. "
             "A case is non-trivial when the "
@@ -1724,9 +1836,69 @@ class C14(fw.Check):
             nsec = len(json_nodes(doc["s"]))
             case = {"stream": "types", "h": True, "plan": "all" if nsec <= 6 else rng.randrange(1, 10 ** 9),
                     "doc": doc}
-            if not ascii_only:
-                case["oracle_only"] = True
+            # (until seeded round 4 these cases were oracle only; the model now takes str.lower as a
+            # parameter and gets the real one for the strings of the case)
             cases.append(case)
+        # ---- added after seeded round 4 (again behind the older streams) ----
+        # stream case: types whose letters have several "other cases" (see CASE_GROUPS), stored and
+        # asked for in every spelling.
+        # (1) every spelling on its own: the only Section of that type below its parent, or next to one
+        #     other spelling of the same group - "find one if any exists" cannot be satisfied by a twin
+        tiny = []
+        for group in CASE_GROUPS:
+            for n, t in enumerate(group):
+                tiny.append([t])
+                tiny.append([t, group[(n + 1 + rng.randrange(0, len(group) - 1)) % len(group)]])
+        for t in CASE_TYPES_H:
+            tiny.append([t])
+        for n, ts in enumerate(tiny):
+            kids = [{"n": NAMES[k], "t": t, "p": [], "s": []} for k, t in enumerate(ts)]
+            if n % 2:
+                kids[0]["s"] = decorate(((rng.choice(NAMES), ()),), rng, uid, ts)
+            top = {"n": rng.choice(NAMES), "t": rng.choice(["t", ts[0]]), "p": [], "s": kids}
+            doc = {"s": [top] if n % 3 else [top] + decorate((("b" if top["n"] != "b" else "a", ()),), rng, uid, ts)}
+            cases.append({"stream": "case", "h": True, "plan": "all", "wide": True, "doc": doc})
+        # (2) random trees over one or two groups, flat / as components of hierarchical types / next to
+        #     ASCII types
+        def case_pool():
+            groups = rng.sample(CASE_GROUPS, rng.choice([1, 1, 2]))
+            pool = [t for g in groups for t in g]
+            mode = rng.randrange(0, 4)
+            if mode == 1:
+                pool = [t + "/" + rng.choice(["x", "X", u"L\xe4nge", t]) for t in pool[:4]] + \
+                       [rng.choice(["stim", "x"]) + "/" + t for t in pool[:3]] + pool[:3]
+            elif mode == 2:
+                pool = rng.sample(CASE_TYPES_H, 6) + pool[:3]
+            elif mode == 3:
+                pool = pool + TYPES[:6]
+            return rng.sample(pool, min(len(pool), rng.choice([1, 2, 3, 5, 8])))
+        for i in range(60 * scale):
+            f = random_forest(rng, rng.choice([1, 2, 3, 4, 5, 6, 6, 9, 14]), NAMES + ["c", "d", "e", "A"],
+                              rng.choice([3, 4, 8]))
+            doc = {"s": decorate(f, rng, uid, case_pool(), PROP_NAMES)}
+            nsec = len(json_nodes(doc["s"]))
+            cases.append({"stream": "case", "h": True, "wide": True, "doc": doc,
+                          "plan": "all" if nsec <= 6 else rng.randrange(1, 10 ** 9)})
+        # (3) the Document reaches such types through a history: type edits and new Sections between
+        #     queries for the same types, Documents read back from XML / JSON / YAML strings and files
+        for i in range(40 * scale):
+            kinds = rng.choices(OP_KINDS, OP_WEIGHTS, k=rng.randrange(0, 4))
+            kinds.insert(rng.randrange(0, len(kinds) + 1), "type")
+            if i % 4 == 3:
+                kinds.append(rng.choice(["new", "type", "clone"]))
+            via = None
+            if i % 2:
+                via = (["XML", "JSON", "YAML"][(i // 2) % 3], ["string", "file"][(i // 6) % 2])
+            case = hist_case(rng, uid, small(), kinds, [None, ["find"], WARM_KINDS][i % 3], "all", via=via,
+                             typepool=case_pool())
+            case["wide"] = True
+            cases.append(case)
+        # (4) lone surrogates in a type: ORACLE ONLY (they cannot travel to the Lean driver as JSON)
+        for i in range(4 * scale):
+            pool = rng.sample(SURROGATE_TYPES, 2) + rng.sample(rng.choice(CASE_GROUPS), 2) + ["t"]
+            f = random_forest(rng, rng.choice([2, 3, 5]), NAMES, 3)
+            cases.append({"stream": "case", "h": True, "plan": "all", "oracle_only": True,
+                          "doc": {"s": decorate(f, rng, uid, pool, PROP_NAMES)}})
         return cases
 
     # -- implementation ------------------------------------------------------
@@ -1778,7 +1950,19 @@ class C14(fw.Check):
         case = eff_case(case, obs)
         if case is None:
             return []
-        return [{"op": "tree", "doc": case["doc"], "qs": plan_queries(case)}]
+        qs = plan_queries(case)
+        req = {"op": "tree", "doc": case["doc"], "qs": qs}
+        strings = tree_types(case["doc"]["s"]) + [q["type"] for q in qs if q.get("type") is not None]
+        table = lower_table(strings)
+        if table:
+            # str.lower is a parameter of the model; here: the real one, for the strings of this case
+            req["lower"] = table
+        if any(has_surrogates(x) for x in strings):
+            return []                        # lone surrogates do not survive the JSON protocol
+        # The request travels as JSON text inside a string: the framework keeps every request of a run
+        # in memory, and the nested Python objects of ~70 000 query plans (thorough tier) took ~30 GB -
+        # the run was killed by the kernel when other checks ran on the machine. Same content.
+        return [{"op": "raw", "json": json.dumps(req, ensure_ascii=True, separators=(",", ":"))}]
 
     def compare(self, case, obs, answers):
         if not answers:
@@ -1855,6 +2039,8 @@ class C14(fw.Check):
         val_ok = {"all": lambda v, f: True, "none": lambda v, f: False,
                   "len_ge": lambda v, f: len(v) >= f["n"], "has": lambda v, f: f["n"] in v}
 
+        tree_ascii = all(is_ascii(t) for t in tree_types(doc["s"]))
+        by_reading = dict((k, dict((rname, []) for rname, _f in READINGS)) for k in ("find", "related"))
         for q, a in zip(plan_queries(case), answers_of(obs)):
             kind = q["q"]
             if kind in ("abs", "relres"):
@@ -1927,7 +2113,6 @@ class C14(fw.Check):
                         scope += kids(cur[:-1])
                     if q["parents"] and cur:
                         scope += [cur[:k] for k in range(len(cur))] if q["recursive"] else [cur[:-1]]
-                good = [p for p in scope if satisfies(byp.get(p), q["key"], q["type"], sub)]
                 if a is None:
                     ret = []
                 elif "one" in a:
@@ -1936,15 +2121,31 @@ class C14(fw.Check):
                     ret = a["many"]
                     if not ret:
                         out.append("%s%s returned an empty list" % (kind, fw.canon(q)))
-                for r in ret:
-                    if not isinstance(r, list) or tuple(r) not in good:
-                        out.append("%s%s returned %s which does not satisfy the request within the relation"
-                                   % (kind, fw.canon(q), r))
+                plain_case = tree_ascii and (q["type"] is None or is_ascii(q["type"]))
+                verdict = None
+                for n, (rname, fold) in enumerate(READINGS):
+                    if n == 0 or not plain_case:     # ASCII: the readings agree, one evaluation
+                        verdict = None
+                        good = [p for p in scope if satisfies(byp.get(p), q["key"], q["type"], sub, fold)]
+                        for r in ret:
+                            if not isinstance(r, list) or tuple(r) not in good:
+                                verdict = ("%s%s returned %s which does not satisfy the request within the relation"
+                                           % (kind, fw.canon(q), r))
+                                break
+                        if verdict is None and good and not ret:
+                            verdict = ("%s%s found nothing although %s satisfies the request"
+                                       % (kind, fw.canon(q), good[0]))
+                    if verdict is None and plain_case:
                         break
-                if good and not ret:
-                    out.append("%s%s found nothing although %s satisfies the request" % (kind, fw.canon(q), good[0]))
-            if len(out) > 8:
+                    if verdict is not None and len(by_reading[kind][rname]) < 5:
+                        by_reading[kind][rname].append(verdict if plain_case else
+                                                       verdict + " (types compared after str.%s)" % rname)
+            if len(out) + max(len(by_reading[k]["lower"]) for k in by_reading) > 8:
                 break
+        for kind in ("find", "related"):
+            # a failure only if no reading of "case-insensitive" makes all answers of the case right
+            if all(by_reading[kind][rname] for rname, _f in READINGS):
+                out += by_reading[kind]["lower"]
         return out
 
     def tag(self, case, obs):
